@@ -2,53 +2,53 @@
    plus one, so the concrete fuel used by [parse] is enough whenever any fuel is. *)
 From V Require Import Common.Base C13.KwSpec C13.Token C13.LexSpec C13.Toks C13.ParseSpec C13.ParseMono.
 
-Definition pe_short (pe : PE) : Prop := forall L ts e r, pe L ts = Some (e, r) -> (List.length r < List.length ts)%nat.
-Definition ps_short (ps : PS) : Prop := forall L left ll ts e r, ps L left ll ts = Some (e, r) -> (List.length r <= List.length ts)%nat.
+Definition pe_short (pe : PE) : Prop := forall ni L ts e r, pe ni L ts = Some (e, r) -> (List.length r < List.length ts)%nat.
+Definition ps_short (ps : PS) : Prop := forall ni L left ll ts e r, ps ni L left ll ts = Some (e, r) -> (List.length r <= List.length ts)%nat.
 Definition pa_short (pa : PA) : Prop := forall ts e r, pa ts = Some (e, r) -> (List.length r < List.length ts)%nat.
 
 Lemma expr_step_short pe ps pa : pe_short pe -> ps_short ps -> pa_short pa -> pe_short (expr_step pe ps pa).
 Proof.
-  intros He Hs Ha L ts e r H. unfold expr_step in H. destruct ts as [|t r0]; [discriminate|]. simpl.
+  intros He Hs Ha ni L ts e r H. unfold expr_step in H. destruct ts as [|t r0]; [discriminate|]. simpl.
   destruct (is_new t).
-  { destruct (pe S_Call r0) as [[c r']|] eqn:E; [|discriminate]. apply He in E.
+  { destruct (pe false S_Call r0) as [[c r']|] eqn:E; [|discriminate]. apply He in E.
     destruct r' as [|p r'']; [apply Hs in H; simpl in *; lia|].
     destruct (is_open p); [|apply Hs in H; simpl in *; lia].
     destruct (pa r'') as [[a r3]|] eqn:E2; [|discriminate]. apply Ha in E2. apply Hs in H. simpl in *. lia. }
   destruct (prefix_op t).
   - destruct (S_New <=? L); [discriminate|].
-    destruct (pe S_Unary r0) as [[v r']|] eqn:E; [|discriminate]. apply He in E.
+    destruct (pe false S_Unary r0) as [[v r']|] eqn:E; [|discriminate]. apply He in E.
     destruct (negb (is_update o) || is_target v); [|discriminate]. apply Hs in H. lia.
   - destruct (atom_of t); [apply Hs in H; lia|].
     destruct (is_open t); [|discriminate].
-    destruct (pe 0 r0) as [[e0 [|c r'']]|] eqn:E; try discriminate. apply He in E. simpl in E.
+    destruct (pe false 0 r0) as [[e0 [|c r'']]|] eqn:E; try discriminate. apply He in E. simpl in E.
     destruct (is_close c); [|discriminate]. apply Hs in H. lia.
 Qed.
 
 Lemma suffix_step_short pe ps pa : pe_short pe -> ps_short ps -> pa_short pa -> ps_short (suffix_step pe ps pa).
 Proof.
-  intros He Hs Ha L left ll ts e r H. unfold suffix_step in H. destruct ts as [|t r0]; [inversion H; subst; simpl; lia|].
+  intros He Hs Ha ni L left ll ts e r H. unfold suffix_step in H. destruct ts as [|t r0]; [inversion H; subst; simpl; lia|].
   destruct (is_dot t).
   - destruct r0 as [|[s| | |] r']; try discriminate.
     destruct (S_Call <=? ll); [|discriminate]. apply Hs in H. simpl. lia.
   - destruct (is_lbrack t).
     { destruct (S_Call <=? ll); [|discriminate].
-      destruct (pe 0 r0) as [[i [|c r']]|] eqn:E; try discriminate. apply He in E. simpl in E.
+      destruct (pe false 0 r0) as [[i [|c r']]|] eqn:E; try discriminate. apply He in E. simpl in E.
       destruct (is_rbrack c); [|discriminate]. apply Hs in H. simpl. lia. }
     destruct (is_open t).
     { destruct (S_Call <=? L); [inversion H; subst; lia|]. destruct (S_Call <=? ll); [|discriminate].
       destruct (pa r0) as [[a r']|] eqn:E; [|discriminate]. apply Ha in E. apply Hs in H. simpl. lia. }
     destruct (is_quest t).
     { destruct (S_Cond <=? L); [inversion H; subst; lia|]. destruct (S_Cond <? ll); [|discriminate].
-      destruct (pe 3 r0) as [[y [|c r']]|] eqn:E; try discriminate. apply He in E. simpl in E.
+      destruct (pe false 3 r0) as [[y [|c r']]|] eqn:E; try discriminate. apply He in E. simpl in E.
       destruct (is_colon c); [|discriminate].
-      destruct (pe 3 r') as [[no r'']|] eqn:E2; [|discriminate]. apply He in E2. apply Hs in H. simpl. lia. }
+      destruct (pe ni 3 r') as [[no r'']|] eqn:E2; [|discriminate]. apply He in E2. apply Hs in H. simpl. lia. }
     destruct (postfix_op t).
     + destruct (S_Update <=? L); [inversion H; subst; lia|].
       destruct ((S_Member <=? ll) && is_target left); [|discriminate]. apply Hs in H. simpl. lia.
     + destruct (binary_op t); [|inversion H; subst; lia].
-      destruct (spec_level o <=? L); [inversion H; subst; lia|].
+      destruct ((ni && op_eqb o BIn) || (spec_level o <=? L)); [inversion H; subst; lia|].
       destruct (left_ok o ll left); [|discriminate].
-      destruct (pe (right_level o) r0) as [[rt r']|] eqn:E; [|discriminate]. apply He in E.
+      destruct (pe ni (right_level o) r0) as [[rt r']|] eqn:E; [|discriminate]. apply He in E.
       apply Hs in H. simpl. lia.
 Qed.
 
@@ -56,7 +56,7 @@ Lemma args_step_short pe pa : pe_short pe -> pa_short pa -> pa_short (args_step 
 Proof.
   intros He Ha ts e r H. unfold args_step in H. destruct ts as [|t r0]; [discriminate|].
   destruct (is_close t); [inversion H; subst; simpl; lia|].
-  destruct (pe 3 (t :: r0)) as [[e0 [|c r']]|] eqn:E; try discriminate. apply He in E. simpl in E.
+  destruct (pe false 3 (t :: r0)) as [[e0 [|c r']]|] eqn:E; try discriminate. apply He in E. simpl in E.
   destruct (is_close c); [inversion H; subst; simpl; lia|]. destruct (is_comma c); [|discriminate].
   destruct (pa r') as [[rest r'']|] eqn:E2; [|discriminate]. apply Ha in E2. inversion H; subst. simpl. lia.
 Qed.
@@ -64,51 +64,51 @@ Qed.
 Lemma parse_short n : pe_short (parse_expr n) /\ ps_short (parse_suffix n) /\ pa_short (parse_args n).
 Proof.
   induction n as [|n (IHe & IHs & IHa)].
-  - repeat split; [intros L ts e r H | intros L left ll ts e r H | intros ts e r H]; discriminate.
+  - repeat split; [intros ni L ts e r H | intros ni L left ll ts e r H | intros ts e r H]; discriminate.
   - repeat split.
-    + intros L ts e r H. rewrite parse_expr_S in H. eapply expr_step_short; eauto.
-    + intros L left ll ts e r H. rewrite parse_suffix_S in H. eapply suffix_step_short; eauto.
+    + intros ni L ts e r H. rewrite parse_expr_S in H. eapply expr_step_short; eauto.
+    + intros ni L left ll ts e r H. rewrite parse_suffix_S in H. eapply suffix_step_short; eauto.
     + intros ts e r H. rewrite parse_args_S in H. eapply args_step_short; eauto.
 Qed.
 
 (* transfer of a successful step to other sub-parsers that agree on strictly shorter inputs *)
 Definition agree_e (pe pe' : PE) (k : nat) : Prop :=
-  forall L' ts' r, (List.length ts' < k)%nat -> pe L' ts' = Some r -> pe' L' ts' = Some r.
+  forall ni' L' ts' r, (List.length ts' < k)%nat -> pe ni' L' ts' = Some r -> pe' ni' L' ts' = Some r.
 Definition agree_s (ps ps' : PS) (k : nat) : Prop :=
-  forall L' l' ll' ts' r, (List.length ts' < k)%nat -> ps L' l' ll' ts' = Some r -> ps' L' l' ll' ts' = Some r.
+  forall ni' L' l' ll' ts' r, (List.length ts' < k)%nat -> ps ni' L' l' ll' ts' = Some r -> ps' ni' L' l' ll' ts' = Some r.
 Definition agree_a (pa pa' : PA) (k : nat) : Prop :=
   forall ts' r, (List.length ts' < k)%nat -> pa ts' = Some r -> pa' ts' = Some r.
 
-Lemma expr_step_transfer pe pe' ps ps' pa pa' L ts res :
+Lemma expr_step_transfer pe pe' ps ps' pa pa' ni L ts res :
   pe_short pe -> pa_short pa ->
   agree_e pe pe' (List.length ts) -> agree_s ps ps' (List.length ts) -> agree_a pa pa' (List.length ts) ->
-  expr_step pe ps pa L ts = Some res -> expr_step pe' ps' pa' L ts = Some res.
+  expr_step pe ps pa ni L ts = Some res -> expr_step pe' ps' pa' ni L ts = Some res.
 Proof.
   intros Hsh Hsa He Hs Ha H. unfold expr_step in *. destruct ts as [|t r0]; [discriminate|].
   unfold agree_e, agree_s, agree_a in *. simpl in He, Hs, Ha.
   destruct (is_new t).
-  { destruct (pe S_Call r0) as [[c r']|] eqn:E; [|discriminate]. pose proof (Hsh _ _ _ _ E) as Hl.
-    rewrite (He _ _ _ (Nat.lt_succ_diag_r _) E).
+  { destruct (pe false S_Call r0) as [[c r']|] eqn:E; [|discriminate]. pose proof (Hsh _ _ _ _ _ E) as Hl.
+    rewrite (He _ _ _ _ (Nat.lt_succ_diag_r _) E).
     destruct r' as [|p r'']; [apply Hs; [simpl; lia | exact H]|].
     destruct (is_open p); [|apply Hs; [simpl in *; lia | exact H]].
     destruct (pa r'') as [[a r3]|] eqn:E2; [|discriminate]. pose proof (Hsa _ _ _ E2) as Hl2. simpl in Hl.
     rewrite (Ha r'' _ ltac:(lia) E2). apply Hs; [lia | exact H]. }
   destruct (prefix_op t).
   - destruct (S_New <=? L); [discriminate|].
-    destruct (pe S_Unary r0) as [[v r']|] eqn:E; [|discriminate]. pose proof (Hsh _ _ _ _ E) as Hl.
-    rewrite (He _ _ _ (Nat.lt_succ_diag_r _) E).
+    destruct (pe false S_Unary r0) as [[v r']|] eqn:E; [|discriminate]. pose proof (Hsh _ _ _ _ _ E) as Hl.
+    rewrite (He _ _ _ _ (Nat.lt_succ_diag_r _) E).
     destruct (negb (is_update o) || is_target v); [|discriminate]. apply Hs; [lia | exact H].
   - destruct (atom_of t); [apply Hs; [lia | exact H]|].
     destruct (is_open t); [|discriminate].
-    destruct (pe 0 r0) as [[e [|c r'']]|] eqn:E; try discriminate. pose proof (Hsh _ _ _ _ E) as Hl. simpl in Hl.
-    rewrite (He _ _ _ (Nat.lt_succ_diag_r _) E).
+    destruct (pe false 0 r0) as [[e [|c r'']]|] eqn:E; try discriminate. pose proof (Hsh _ _ _ _ _ E) as Hl. simpl in Hl.
+    rewrite (He _ _ _ _ (Nat.lt_succ_diag_r _) E).
     destruct (is_close c); [|discriminate]. apply Hs; [lia | exact H].
 Qed.
 
-Lemma suffix_step_transfer pe pe' ps ps' pa pa' L left ll ts res :
+Lemma suffix_step_transfer pe pe' ps ps' pa pa' ni L left ll ts res :
   pe_short pe -> pa_short pa ->
   agree_e pe pe' (List.length ts) -> agree_s ps ps' (List.length ts) -> agree_a pa pa' (List.length ts) ->
-  suffix_step pe ps pa L left ll ts = Some res -> suffix_step pe' ps' pa' L left ll ts = Some res.
+  suffix_step pe ps pa ni L left ll ts = Some res -> suffix_step pe' ps' pa' ni L left ll ts = Some res.
 Proof.
   intros Hsh Hsa He Hs Ha H. unfold suffix_step in *. destruct ts as [|t r0]; [exact H|].
   unfold agree_e, agree_s, agree_a in *. simpl in He, Hs, Ha.
@@ -117,8 +117,8 @@ Proof.
     destruct (S_Call <=? ll); [|discriminate]. apply Hs; [simpl; lia | exact H].
   - destruct (is_lbrack t).
     { destruct (S_Call <=? ll); [|discriminate].
-      destruct (pe 0 r0) as [[i [|c r']]|] eqn:E; try discriminate. pose proof (Hsh _ _ _ _ E) as Hl. simpl in Hl.
-      rewrite (He _ _ _ (Nat.lt_succ_diag_r _) E).
+      destruct (pe false 0 r0) as [[i [|c r']]|] eqn:E; try discriminate. pose proof (Hsh _ _ _ _ _ E) as Hl. simpl in Hl.
+      rewrite (He _ _ _ _ (Nat.lt_succ_diag_r _) E).
       destruct (is_rbrack c); [|discriminate]. apply Hs; [lia | exact H]. }
     destruct (is_open t).
     { destruct (S_Call <=? L); [exact H|]. destruct (S_Call <=? ll); [|discriminate].
@@ -126,31 +126,31 @@ Proof.
       rewrite (Ha _ _ (Nat.lt_succ_diag_r _) E). apply Hs; [lia | exact H]. }
     destruct (is_quest t).
     { destruct (S_Cond <=? L); [exact H|]. destruct (S_Cond <? ll); [|discriminate].
-      destruct (pe 3 r0) as [[y [|c r']]|] eqn:E; try discriminate. pose proof (Hsh _ _ _ _ E) as Hl. simpl in Hl.
-      rewrite (He _ _ _ (Nat.lt_succ_diag_r _) E).
+      destruct (pe false 3 r0) as [[y [|c r']]|] eqn:E; try discriminate. pose proof (Hsh _ _ _ _ _ E) as Hl. simpl in Hl.
+      rewrite (He _ _ _ _ (Nat.lt_succ_diag_r _) E).
       destruct (is_colon c); [|discriminate].
-      destruct (pe 3 r') as [[no r'']|] eqn:E2; [|discriminate]. pose proof (Hsh _ _ _ _ E2) as Hl2.
-      rewrite (He 3 r' _ ltac:(lia) E2). apply Hs; [lia | exact H]. }
+      destruct (pe ni 3 r') as [[no r'']|] eqn:E2; [|discriminate]. pose proof (Hsh _ _ _ _ _ E2) as Hl2.
+      rewrite (He ni 3 r' _ ltac:(lia) E2). apply Hs; [lia | exact H]. }
     destruct (postfix_op t).
     + destruct (S_Update <=? L); [exact H|].
       destruct ((S_Member <=? ll) && is_target left); [|discriminate]. apply Hs; [lia | exact H].
     + destruct (binary_op t); [|exact H].
-      destruct (spec_level o <=? L); [exact H|].
+      destruct ((ni && op_eqb o BIn) || (spec_level o <=? L)); [exact H|].
       destruct (left_ok o ll left); [|discriminate].
-      destruct (pe (right_level o) r0) as [[rt r']|] eqn:E; [|discriminate]. pose proof (Hsh _ _ _ _ E) as Hl.
-      rewrite (He _ _ _ (Nat.lt_succ_diag_r _) E). apply Hs; [lia | exact H].
+      destruct (pe ni (right_level o) r0) as [[rt r']|] eqn:E; [|discriminate]. pose proof (Hsh _ _ _ _ _ E) as Hl.
+      rewrite (He _ _ _ _ (Nat.lt_succ_diag_r _) E). apply Hs; [lia | exact H].
 Qed.
 
 (* the argument parser calls the expression parser on its whole input: it gets one more unit of fuel *)
 Lemma args_step_transfer pe pe' pa pa' ts res :
   pe_short pe ->
-  (forall L' r, pe L' ts = Some r -> pe' L' ts = Some r) -> agree_a pa pa' (List.length ts) ->
+  (forall ni' L' r, pe ni' L' ts = Some r -> pe' ni' L' ts = Some r) -> agree_a pa pa' (List.length ts) ->
   args_step pe pa ts = Some res -> args_step pe' pa' ts = Some res.
 Proof.
   intros Hsh He Ha H. unfold args_step in *. destruct ts as [|t r0]; [discriminate|].
   destruct (is_close t); [exact H|].
-  destruct (pe 3 (t :: r0)) as [[e [|c r']]|] eqn:E; try discriminate. pose proof (Hsh _ _ _ _ E) as Hl. simpl in Hl.
-  rewrite (He _ _ E).
+  destruct (pe false 3 (t :: r0)) as [[e [|c r']]|] eqn:E; try discriminate. pose proof (Hsh _ _ _ _ _ E) as Hl. simpl in Hl.
+  rewrite (He _ _ _ E).
   destruct (is_close c); [exact H|]. destruct (is_comma c); [|discriminate].
   destruct (pa r') as [[rest r'']|] eqn:E2; [|discriminate].
   rewrite (Ha r' _ ltac:(simpl; lia) E2). exact H.
@@ -158,44 +158,44 @@ Qed.
 
 (* fuel 2k+1 for expressions/suffixes and 2k+2 for argument lists of at most k tokens *)
 Lemma fuel_enough : forall k,
-  (forall ts, (List.length ts <= k)%nat -> forall n L res, parse_expr n L ts = Some res -> parse_expr (2 * k + 1) L ts = Some res) /\
-  (forall ts, (List.length ts <= k)%nat -> forall n L left ll res, parse_suffix n L left ll ts = Some res -> parse_suffix (2 * k + 1) L left ll ts = Some res) /\
+  (forall ts, (List.length ts <= k)%nat -> forall n ni L res, parse_expr n ni L ts = Some res -> parse_expr (2 * k + 1) ni L ts = Some res) /\
+  (forall ts, (List.length ts <= k)%nat -> forall n ni L left ll res, parse_suffix n ni L left ll ts = Some res -> parse_suffix (2 * k + 1) ni L left ll ts = Some res) /\
   (forall ts, (List.length ts <= k)%nat -> forall n res, parse_args n ts = Some res -> parse_args (2 * k + 2) ts = Some res).
 Proof.
   induction k as [|k (IHe & IHs & IHa)].
   - repeat split; intros ts Hl n; (destruct ts as [|t0 ts0]; [|simpl in Hl; lia]).
-    + intros L res H. destruct n as [|n]; [discriminate|]. rewrite parse_expr_S in H. discriminate.
-    + intros L left ll res H. destruct n as [|n]; [discriminate|]. rewrite parse_suffix_S in H. exact H.
+    + intros ni L res H. destruct n as [|n]; [discriminate|]. rewrite parse_expr_S in H. discriminate.
+    + intros ni L left ll res H. destruct n as [|n]; [discriminate|]. rewrite parse_suffix_S in H. exact H.
     + intros res H. destruct n as [|n]; [discriminate|]. rewrite parse_args_S in H. discriminate.
-  - assert (Ee : forall ts, (List.length ts <= S k)%nat -> forall n L res, parse_expr n L ts = Some res -> parse_expr (2 * S k + 1) L ts = Some res).
-    { intros ts Hl n L res H. destruct n as [|n]; [discriminate|].
+  - assert (Ee : forall ts, (List.length ts <= S k)%nat -> forall n ni L res, parse_expr n ni L ts = Some res -> parse_expr (2 * S k + 1) ni L ts = Some res).
+    { intros ts Hl n ni L res H. destruct n as [|n]; [discriminate|].
       replace (2 * S k + 1)%nat with (S (2 * k + 2)) by lia. rewrite parse_expr_S in H |- *.
       destruct (parse_short n) as (Se & _ & Sa).
       eapply (expr_step_transfer (parse_expr n) _ (parse_suffix n) _ (parse_args n)); [exact Se | exact Sa | | | | exact H].
-      - intros L' ts' r Hlt Hr. apply (parse_expr_mono (2 * k + 1)); [lia|]. eapply IHe; [lia | exact Hr].
-      - intros L' l' ll' ts' r Hlt Hr. apply (parse_suffix_mono (2 * k + 1)); [lia|]. eapply IHs; [lia | exact Hr].
+      - intros ni' L' ts' r Hlt Hr. apply (parse_expr_mono (2 * k + 1)); [lia|]. eapply IHe; [lia | exact Hr].
+      - intros ni' L' l' ll' ts' r Hlt Hr. apply (parse_suffix_mono (2 * k + 1)); [lia|]. eapply IHs; [lia | exact Hr].
       - intros ts' r Hlt Hr. eapply IHa; [lia | exact Hr]. }
     repeat split.
     + exact Ee.
-    + intros ts Hl n L left ll res H. destruct n as [|n]; [discriminate|].
+    + intros ts Hl n ni L left ll res H. destruct n as [|n]; [discriminate|].
       replace (2 * S k + 1)%nat with (S (2 * k + 2)) by lia. rewrite parse_suffix_S in H |- *.
       destruct (parse_short n) as (Se & _ & Sa).
       eapply (suffix_step_transfer (parse_expr n) _ (parse_suffix n) _ (parse_args n)); [exact Se | exact Sa | | | | exact H].
-      * intros L' ts' r Hlt Hr. apply (parse_expr_mono (2 * k + 1)); [lia|]. eapply IHe; [lia | exact Hr].
-      * intros L' l' ll' ts' r Hlt Hr. apply (parse_suffix_mono (2 * k + 1)); [lia|]. eapply IHs; [lia | exact Hr].
+      * intros ni' L' ts' r Hlt Hr. apply (parse_expr_mono (2 * k + 1)); [lia|]. eapply IHe; [lia | exact Hr].
+      * intros ni' L' l' ll' ts' r Hlt Hr. apply (parse_suffix_mono (2 * k + 1)); [lia|]. eapply IHs; [lia | exact Hr].
       * intros ts' r Hlt Hr. eapply IHa; [lia | exact Hr].
     + intros ts Hl n res H. destruct n as [|n]; [discriminate|].
       replace (2 * S k + 2)%nat with (S (2 * S k + 1)) by lia. rewrite parse_args_S in H |- *.
       destruct (parse_short n) as (Se & _ & Sa).
       eapply (args_step_transfer (parse_expr n) _ (parse_args n)); [exact Se | | | exact H].
-      * intros L' r Hr. eapply Ee; [exact Hl | exact Hr].
+      * intros ni' L' r Hr. eapply Ee; [exact Hl | exact Hr].
       * intros ts' r Hlt Hr. apply (parse_args_mono (2 * k + 2)); [lia|]. eapply IHa; [lia | exact Hr].
 Qed.
 
-Theorem parse_fuel_enough n ts e : parse_fuel n ts = Some e -> parse ts = Some e.
+Theorem parse_fuel_enough n ni ts e : parse_fuel n ni ts = Some e -> parse ni ts = Some e.
 Proof.
   unfold parse, parse_fuel. intro H.
-  destruct (parse_expr n 0 ts) as [[e' [|c r]]|] eqn:E; try discriminate.
-  pose proof (proj1 (fuel_enough (List.length ts)) ts (Nat.le_refl _) n 0 _ E) as E1.
-  rewrite (parse_expr_mono (2 * List.length ts + 1) (2 * List.length ts + 2) _ _ _ ltac:(lia) E1). exact H.
+  destruct (parse_expr n ni 0 ts) as [[e' [|c r]]|] eqn:E; try discriminate.
+  pose proof (proj1 (fuel_enough (List.length ts)) ts (Nat.le_refl _) n ni 0 _ E) as E1.
+  rewrite (parse_expr_mono (2 * List.length ts + 1) (2 * List.length ts + 2) _ _ _ _ ltac:(lia) E1). exact H.
 Qed.
